@@ -103,6 +103,15 @@ def pair_space(tier, phase):
     else:
         extra += slot_space(phase, 3, VELS, False)
         extra += slot_space(phase, 3, (0.0, 64.0, 127.0), True)
+    # short notes: 0.2 * duration < 0.05, so the offset tolerance is the offset_min_tolerance floor itself and an
+    # offset error of 20 / 40 ms lies between the documented default floor (50 ms) and the non-default one (10 ms)
+    b, f0 = base_of(phase) + 30, f0_of(phase)
+    for dv in ((0.0, 0.0), (64.0, 64.0), (0.0, 127.0)):
+        for err in (2, 4):
+            ref = ((T(b), T(b + 10), f0, dv[0]), (T(b + 100), T(b + 125), cents(f0, 200), 64.0))
+            est = ((T(b), T(b + 10 + err), f0, dv[1]), (T(b + 100), T(b + 125), cents(f0, 200), 64.0))
+            extra.append((ref, est))
+            extra.append((ref[:1], est[:1]))
     for st in extra:
         if st not in seen:
             seen.add(st)
@@ -158,8 +167,10 @@ TASK.ambiguous_self_matching = ambiguous_self_matching
 
 # C07 nested "with velocity <= without" (Precision, Recall, F-measure: same denominators, fewer hits)
 TASK.cross_nested = []
-for _cfg in ({}, {"offset_ratio": None}, {"strict": True}, {"velocity_tolerance": 0.6}, {"velocity_tolerance": 0.05}):
-    _hi = {k: v for k, v in _cfg.items() if k in ("offset_ratio", "strict")}
+for _cfg in ({}, {"offset_ratio": None}, {"strict": True}, {"velocity_tolerance": 0.6}, {"velocity_tolerance": 0.05},
+             {"offset_min_tolerance": 0.01}, {"onset_tolerance": 0.04}, {"pitch_tolerance": 1.0}):
+    _hi = {k: v for k, v in _cfg.items() if k in ("offset_ratio", "strict", "offset_min_tolerance", "onset_tolerance",
+                                                   "pitch_tolerance")}
     for _k in PRF:
         TASK.cross_nested.append(((_F_VEL, _k, dict(_cfg)), (_F_NOVEL, _k, dict(_hi))))
 
